@@ -417,3 +417,122 @@ def boundary_triple(r, exotic=False):
     elif c < 0.75: remote = boundary_fill(r, base, slots, exotic)
     else: remote, _ = mutate(r, base, n=r.choice([1, 2]), exotic=exotic)
     return base, local, remote, slots
+
+# ------------------------------------------------------------------ encodings of the process's standard streams
+# The terminal the entry points write to need not be a UTF-8 one.  An environment below fixes the encoding (and error handler)
+# Python gives sys.stdout / sys.stderr / sys.stdin: through the locale (LC_ALL / LC_CTYPE / LANG with Python's C-locale
+# coercion and UTF-8 mode switched off -- the ASCII locales are the only non-UTF-8 ones installed here), or through
+# PYTHONIOENCODING (Latin-1 and other 8-bit code pages).  kind:
+#   'locale'    the locale makes the streams ASCII with Python's default handler: text outside ASCII cannot be written as is
+#   'utf8'      the streams are UTF-8 in one of the several ways to get there (controls)
+#   'io-lossy'  PYTHONIOENCODING names a replacing error handler (the user's own choice of how to degrade)
+#   'io-strict' PYTHONIOENCODING asks for a strict codec: the user's explicit choice that unencodable text is an error, so
+#               these environments are only combined with text (and file names) the codec can represent
+ENC_OFF = {'PYTHONCOERCECLOCALE': '0', 'PYTHONUTF8': '0'}
+STREAM_ENVS = [
+    ('LC_ALL=C', dict(ENC_OFF, LC_ALL='C'), 'ascii', 'locale'),
+    ('LC_ALL=POSIX', dict(ENC_OFF, LC_ALL='POSIX'), 'ascii', 'locale'),
+    ('LANG=C', dict(ENC_OFF, LANG='C'), 'ascii', 'locale'),
+    ('no locale variables', dict(ENC_OFF), 'ascii', 'locale'),
+    ('LC_CTYPE=C over LANG=C.UTF-8', dict(ENC_OFF, LC_CTYPE='C', LANG='C.UTF-8'), 'ascii', 'locale'),
+    ('LC_ALL=C over LANG=C.UTF-8', dict(ENC_OFF, LC_ALL='C', LANG='C.UTF-8'), 'ascii', 'locale'),
+    ('LC_ALL=C.UTF-8', dict(LC_ALL='C.UTF-8'), 'utf-8', 'utf8'),
+    ('LC_ALL=C coerced by Python', dict(LC_ALL='C'), 'utf-8', 'utf8'),
+    ('LC_ALL=C PYTHONUTF8=1', dict(LC_ALL='C', PYTHONUTF8='1'), 'utf-8', 'utf8'),
+    ('LANG=C.UTF-8 no coercion', dict(ENC_OFF, LANG='C.UTF-8'), 'utf-8', 'utf8'),
+    ('PYTHONIOENCODING=latin-1:backslashreplace', dict(LC_ALL='C.UTF-8', PYTHONIOENCODING='latin-1:backslashreplace'), 'latin-1', 'io-lossy'),
+    ('PYTHONIOENCODING=ascii:replace', dict(LC_ALL='C.UTF-8', PYTHONIOENCODING='ascii:replace'), 'ascii', 'io-lossy'),
+    ('PYTHONIOENCODING=ascii:xmlcharrefreplace', dict(LC_ALL='C.UTF-8', PYTHONIOENCODING='ascii:xmlcharrefreplace'), 'ascii', 'io-lossy'),
+    ('LC_ALL=C PYTHONIOENCODING=:backslashreplace', dict(ENC_OFF, LC_ALL='C', PYTHONIOENCODING=':backslashreplace'), 'ascii', 'io-lossy'),
+    ('PYTHONIOENCODING=cp1252:replace', dict(LC_ALL='C.UTF-8', PYTHONIOENCODING='cp1252:replace'), 'cp1252', 'io-lossy'),
+    ('PYTHONIOENCODING=koi8-r:backslashreplace', dict(LC_ALL='C.UTF-8', PYTHONIOENCODING='koi8-r:backslashreplace'), 'koi8-r', 'io-lossy'),
+    ('PYTHONIOENCODING=latin-1', dict(LC_ALL='C.UTF-8', PYTHONIOENCODING='latin-1'), 'latin-1', 'io-strict'),
+    ('PYTHONIOENCODING=cp1252:strict', dict(LC_ALL='C.UTF-8', PYTHONIOENCODING='cp1252:strict'), 'cp1252', 'io-strict'),
+    ('LC_ALL=C PYTHONIOENCODING=utf-8', dict(ENC_OFF, LC_ALL='C', PYTHONIOENCODING='utf-8'), 'utf-8', 'io-strict'),
+]
+
+def stream_envs(kind):
+    return [dict(name=n, vars=v, codec=c, kind=k) for n, v, c, k in STREAM_ENVS if k == kind]
+
+# text by the smallest of the usual terminal encodings that can represent it
+ENC_TEXTS = {
+    'latin1': ['Zoë', 'résumé', 'señor ñandú', 'Grüße aus Köln', '½ × ¿qué?', 'naïve café', 'Ærø ÷ þ', 'a\xa0b'],
+    'cp1252': ['€ 5', '“quoted”', 'dash – and — dash', 'œuvre', 'Š ž …', '™ ‰'],
+    'bmp': ['α → β', 'Жизнь', '日本語のテキスト', '✓ done', 'e' + chr(0x301) + ' combining', 'العربية', 'ก ไก่', '∀x ∈ ℝ', 'ł ő ě'],
+    'astral': [chr(0x1F600) + ' smile', chr(0x1D4B3) + ' math', chr(0x1F1E9) + chr(0x1F1EA) + ' flag', chr(0x20BB7) + '野家', chr(0x10348) + ' gothic'],
+}
+ENC_REPERTOIRES = ['latin1', 'bmp', 'astral', 'cp1252', 'mixed']
+ENC_SITES = ['source', 'stream', 'markdown-cell', 'raw-cell', 'nb-metadata-value', 'nb-metadata-key', 'cell-metadata', 'error-output',
+             'display-data', 'attachment-name', 'deleted-cell']
+ENC_FILE_STEMS = ['n', 'gämma', '日本', 'two words é', 'Ж' + chr(0x1F600)]
+
+def enc_text(r, rep):
+    pool = ENC_TEXTS[rep] if rep in ENC_TEXTS else [t for k in sorted(ENC_TEXTS) for t in ENC_TEXTS[k]]
+    return r.choice(pool)
+
+def enc_restrict(x, codec):
+    """the document with every character its strings (keys included) hold outside the codec replaced by '?'"""
+    if isinstance(x, str): return x.encode(codec, 'replace').decode(codec)
+    if isinstance(x, dict): return {enc_restrict(k, codec): enc_restrict(v, codec) for k, v in x.items()}
+    if isinstance(x, list): return [enc_restrict(v, codec) for v in x]
+    return x
+
+def enc_base(r):
+    """a generated notebook that certainly holds a code cell with a stream output, a markdown cell and a cell that an edit may
+    delete; each carries a marker word (zq<n>x) of its own"""
+    nb = gen_notebook(r, ncells=r.choice([0, 1, 2]))
+    code = {'cell_type': 'code', 'execution_count': 1, 'metadata': {}, 'source': 'x = 1\nname = "Zoe"\nprint(name)\n',
+            'outputs': [{'output_type': 'stream', 'name': 'stdout', 'text': 'Zoe\n'}]}
+    md = {'cell_type': 'markdown', 'metadata': {}, 'source': '# Title\nsome text'}
+    for c in (code, md):
+        if nb['nbformat_minor'] >= 5: c['id'] = cell_id(r)
+        nb['cells'].insert(r.randrange(len(nb['cells']) + 1), c)
+    nb['metadata']['title'] = 'resume'
+    return nb
+
+def enc_edit(r, nb, site, text, marker):
+    """put `text` (with the ASCII marker word next to it) into nb at the given kind of site, in place"""
+    minor = nb['nbformat_minor']
+    def new_cell(c):
+        if minor >= 5: c['id'] = cell_id(r)
+        nb['cells'].insert(r.randrange(len(nb['cells']) + 1), c)
+    code = [c for c in nb['cells'] if c['cell_type'] == 'code' and any(o['output_type'] == 'stream' for o in c['outputs'])]
+    if site == 'source':
+        c = r.choice(nb['cells']); s = c['source']
+        c['source'] = s + ('' if s.endswith('\n') or not s else '\n') + "name = '%s'  # %s" % (text, marker) + r.choice(['', '\n'])
+    elif site == 'stream' and code:
+        o = [o for o in r.choice(code)['outputs'] if o['output_type'] == 'stream'][0]
+        o['text'] = o['text'] + ('' if o['text'].endswith('\n') else '\n') + '%s %s\n' % (text, marker)
+    elif site == 'markdown-cell': new_cell({'cell_type': 'markdown', 'metadata': {}, 'source': '## %s\n%s' % (marker, text)})
+    elif site == 'raw-cell': new_cell({'cell_type': 'raw', 'metadata': {}, 'source': '%s %s' % (text, marker)})
+    elif site == 'nb-metadata-value': nb['metadata']['title'] = '%s %s' % (text, marker)
+    elif site == 'nb-metadata-key': nb['metadata']['%s %s' % (text, marker)] = r.choice([1, True, 'v', [text]])
+    elif site == 'cell-metadata':
+        md = r.choice(nb['cells'])['metadata']; md['tags'] = list(md.get('tags', [])) + ['%s-%s' % (marker, text)]
+    elif site == 'error-output' and code:
+        r.choice(code)['outputs'].append({'output_type': 'error', 'ename': 'Error' + marker, 'evalue': text, 'traceback': ['%s: %s' % (marker, text)]})
+    elif site == 'display-data' and code:
+        r.choice(code)['outputs'].append({'output_type': 'display_data', 'metadata': {}, 'data': {'text/plain': '%s %s' % (text, marker), 'text/html': '<b>%s</b>' % text}})
+    elif site == 'attachment-name':
+        new_cell({'cell_type': 'markdown', 'metadata': {}, 'source': '![i](attachment:%s.png)' % marker, 'attachments': {'%s %s.png' % (marker, text): {'image/png': b64(r, 30)}}})
+    elif site == 'deleted-cell' and len(nb['cells']) > 2:
+        i = r.randrange(len(nb['cells']))
+        if not (nb['cells'][i]['cell_type'] == 'code' and len(code) == 1 and nb['cells'][i] is code[0]): del nb['cells'][i]
+    else:
+        nb['metadata']['note ' + marker] = text
+
+def enc_documents(r, rep, codec=None):
+    """(base, local, remote): base holds text of the repertoire at a few sites, local and remote are edits of base that add
+    more of it at other sites (each piece next to a marker word of its own).  With a codec everything is restricted to it."""
+    base = enc_base(r)
+    k = [0]
+    def edits(nb, n):
+        for site in r.sample(ENC_SITES, n):
+            k[0] += 1
+            enc_edit(r, nb, site, enc_text(r, rep), 'zq%dx' % k[0])
+    edits(base, r.choice([1, 2]))
+    local = copy.deepcopy(base); edits(local, r.choice([2, 3, 4]))
+    remote = copy.deepcopy(base); edits(remote, r.choice([1, 2, 3]))
+    docs = [base, local, remote]
+    if codec: docs = [enc_restrict(d, codec) for d in docs]
+    return docs
